@@ -4,10 +4,14 @@ CONSTANTS
   ExplicitByCanonical = FALSE
   KeyByCanonical = TRUE
   LookupCanonical = TRUE
+  IncluderDirResolved = TRUE
+  OptDirsPhysical = FALSE
   MaxIncludes = 3
 INVARIANT Refines
 INVARIANT RefSane
 INVARIANT OnceOnly
 INVARIANT OwnRefines
+INVARIANT ChainRefines
+INVARIANT ChainSane
 CONSTRAINT DumpConstraint
 CHECK_DEADLOCK FALSE
